@@ -535,7 +535,7 @@ func runC18(c *Ctx) {
 	}
 	c.Count("golden_entries", len(corpus.Entries))
 	c.Meta(map[string]interface{}{
-		"rule": "(a) in every state reached by BFS under 11 configurations (async: after FlushAllAndCommit) an independent walk checks the layout: one directory named after the struct type (lower-case snake form when lower-case names are on), schema.json plus exactly one file <uuid><ext>[.gz] per stored object and nothing else, gzip iff compression, content = plain JSON encoding of the object under the Go field names (generic decode), schema.json keys / settings / index tuples [value, object-id] with exact 64-bit values in non-increasing order and object-ids covering exactly the stored objects; (b) golden corpus: every directory written by the pinned release (all distinct final states of histories up to depth 3 under 12 configurations, committed under /verif/golden with the pinned commit id) is opened by the current code: full read and search sweep = recorded contents, Control quiet, then each follow-up call, Close, reopen, sweep and layout check.",
+		"rule":                 "(a) in every state reached by BFS under 11 configurations (async: after FlushAllAndCommit) an independent walk checks the layout: one directory named after the struct type (lower-case snake form when lower-case names are on), schema.json plus exactly one file <uuid><ext>[.gz] per stored object and nothing else, gzip iff compression, content = plain JSON encoding of the object under the Go field names (generic decode), schema.json keys / settings / index tuples [value, object-id] with exact 64-bit values in non-increasing order and object-ids covering exactly the stored objects; (b) golden corpus: every directory written by the pinned release (all distinct final states of histories up to depth 3 under 12 configurations, committed under /verif/golden with the pinned commit id) is opened by the current code: full read and search sweep = recorded contents, Control quiet, then each follow-up call, Close, reopen, sweep and layout check.",
 		"golden_pinned_commit": corpus.PinnedCommit, "depth": depth,
 		"assumptions": []string{"the corpus bytes were produced by the pinned code running over the in-memory file system (the bytes are what the code hands to write(2))"},
 	})
